@@ -331,6 +331,18 @@ class ExprBuilder:
         self.cur_bb, self.cur_idx = saved
         return out
 
+    def def_exprs_deep(self, l, depth=0):
+        """like def_exprs, but a definition that merely copies an *unnamed* multi-definition
+        temporary (the merged result of an `if`/`match` expression, or the return slot of an
+        inlined helper) is replaced by that temporary's definitions"""
+        out = []
+        for e in self.def_exprs(l):
+            if e[0] == "var" and isinstance(e[1], int) and not self.body.local_name(e[1]) and depth < 4:
+                out.extend(self.def_exprs_deep(e[1], depth + 1))
+            else:
+                out.append(e)
+        return out
+
     def expand_all(self, e, limit=200):
         """all expressions that may flow into `e`, expanding multi-definition locals through every
         definition (flow-insensitive).  Yields sub-expressions; `var` leaves that were expanded
@@ -452,6 +464,21 @@ class ExprBuilder:
 # printing
 
 
+_PINNED_CONSTS = False
+
+
+def _pinned_consts():
+    global _PINNED_CONSTS
+    if _PINNED_CONSTS is False:
+        import json as _json
+        import os as _os
+        try:
+            _PINNED_CONSTS = set(_json.load(open(_os.path.join(_os.path.dirname(_os.path.abspath(__file__)), "pinned_consts.json"))))
+        except OSError:
+            _PINNED_CONSTS = None
+    return _PINNED_CONSTS
+
+
 def show(e, depth=0):
     """rendering for messages and shape tests; total: a malformed / canonicalised node is rendered
     with repr instead of raising"""
@@ -471,6 +498,10 @@ def _show(e, depth=0):
         if isinstance(v, Fraction):
             v = float(v)
         item = e[3] if len(e) > 3 else None   # canonical forms drop the defining item
+        # a const item that does not exist in the pinned tree is a magic number that got a name:
+        # rendered as the plain value, so that text-level comparisons are unaffected
+        if item and _pinned_consts() is not None and item not in _pinned_consts():
+            item = None
         return "%s%s" % (v, "{%s}" % item.split("::")[-1] if item else "")
     if t == "s":
         return repr(e[1])
